@@ -22,6 +22,7 @@ import XotModel.Lemmas.FinvValue7
 import XotModel.Lemmas.FinvReads
 import XotModel.Lemmas.FinvPrefix
 import XotModel.Lemmas.FinvIdIndex
+import XotModel.Lemmas.Fcreation
 
 namespace XotModel.Props
 open XotModel
@@ -712,5 +713,67 @@ example : (IdStore.init.run idOps2).xmlIdNode 1 ['x'] = none ∧ (IdStore.init.r
 /-- a tree with a duplicate ID is refused and the store is unchanged (`DuplicateId`). -/
 example : (IdStore.init.parse (.node .document [.node (.element 2) [.node (.attribute 1 ['x']) [],
     .node (.element 3) [.node (.attribute 1 ['x']) []]]])).2 = none := by decide
+
+/-! ### The convenience calls of the public API (`Model/Fcreation.lean`)
+
+  `new_document_with_element`, `append_text` / `_element` / `_comment` /
+  `_processing_instruction`, `append_namespace`, the `set_` / `remove_` `attribute` / `namespace`
+  wrappers and the value setters reached through `element_mut`, `attribute_node_mut`,
+  `namespace_node_mut`, `processing_instruction_mut().set_target`, `text_mut().get_mut()`,
+  `value_mut`.  Each is a composition of calls `C04_step_all` covers (a node creation, then
+  `append` / `append_namespace_node`; a node-map `insert` / `remove`; a value written with the
+  kind unchanged), so each preserves the invariant — for ALL arguments and whatever it answers. -/
+
+theorem C04_step_creation (f : Forest) (c : Forest.COp) (hi : f.Inv) : (c.run f).1.Inv :=
+  Forest.COp.run_inv hi c
+
+/-- The compositions, spelled out as histories of `Op` (so that `C04_handle_meaning`,
+    `C04_isRemoved_history` … apply to them as they stand). -/
+theorem C04_creation_as_history (f : Forest) :
+    (∀ p s, (f.appendText p s).1 = f.run [.newText s, .append p f.next]) ∧
+    (∀ p n, (f.appendElement p n).1 = f.run [.newElement n, .append p f.next]) ∧
+    (∀ p s, (f.appendComment p s).1 = f.run [.newComment s, .append p f.next]) ∧
+    (∀ p t d, (f.appendPi p t d).1 = f.run [.newPi t d, .append p f.next]) ∧
+    (∀ p pfx ns, (f.appendNamespace p pfx ns).1 = f.run [.newNamespaceNode pfx ns, .appendNamespaceNode p f.next]) ∧
+    (∀ n, f.isElement n = true → (f.newDocumentWithElement n).1 = f.run [.newDocument, .append f.next n]) ∧
+    (∀ n, f.isElement n = false → (f.newDocumentWithElement n).1 = f) ∧
+    (∀ e k v, (f.setAttribute e k v).1 = f.run [.attrInsert e k v]) ∧
+    (∀ e k, (f.removeAttribute e k).1 = f.run [.attrRemove e k]) ∧
+    (∀ e p ns, (f.setNamespace e p ns).1 = f.run [.nsInsert e p ns]) ∧
+    (∀ e p, (f.removeNamespace e p).1 = f.run [.nsRemove e p]) := by
+  refine ⟨fun _ _ => rfl, fun _ _ => rfl, fun _ _ => rfl, fun _ _ _ => rfl, fun _ _ _ => rfl, ?_, ?_,
+    fun _ _ _ => rfl, fun _ _ => rfl, fun _ _ _ => rfl, fun _ _ => rfl⟩
+  · intro n he; simp [Forest.newDocumentWithElement, he, Forest.run, Forest.step]; rfl
+  · intro n he; simp [Forest.newDocumentWithElement, he]
+
+/-- Histories mixing the calls of `Op` and the convenience calls: every reachable forest
+    satisfies the invariant. -/
+theorem C04_reach_creation (ops : List (Op ⊕ Forest.COp)) :
+    (ops.foldl (fun f o => match o with | .inl o => f.step o | .inr c => (c.run f).1) Forest.init).Inv := by
+  suffices h : ∀ (f : Forest), f.Inv →
+      (ops.foldl (fun f o => match o with | .inl o => f.step o | .inr c => (c.run f).1) f).Inv from
+    h _ ((Forest.inv_iff _).mp C04_init)
+  induction ops with
+  | nil => exact fun f hi => hi
+  | cons o ops ih =>
+    intro f hi
+    rw [List.foldl_cons]
+    cases o with
+    | inl o => exact ih _ (C04_step_all f o hi)
+    | inr c => exact ih _ (C04_step_creation f c hi)
+
+/-- Non-vacuity: `<doc>a<e>x</e>b</doc>`; `new_document_with_element(e)` takes `e` out from between
+    two text nodes (they are merged: no adjacent text nodes are left behind), a refused
+    `append_text` leaves its fresh node parentless; the invariant holds after each. -/
+example :
+    let f : Forest := { roots := [.node 0 (.element 2) [.node 1 (.text ['a']) [], .node 2 (.element 3) [.node 3 (.text ['x']) []],
+                                    .node 4 (.text ['b']) []]], next := 5 }
+    f.inv = true ∧ (f.newDocumentWithElement 2).1.inv = true ∧
+      (f.newDocumentWithElement 2).1.allHandles = [0, 1, 5, 2, 3] ∧
+      (Forest.COp.run f (.appendNew 1 (.text ['c']))).2 = .err .invalidOperation ∧
+      (Forest.COp.run f (.appendNew 1 (.text ['c']))).1.inv = true ∧
+      (Forest.COp.run f (.appendNew 1 (.text ['c']))).1.allHandles = [0, 1, 2, 3, 4, 5] ∧
+      (Forest.COp.run f (.namespaceSetNamespace 1 3)).2 = .err .invalidOperation := by
+  decide
 
 end XotModel.Props
